@@ -485,7 +485,7 @@ class Sym:
                 if isinstance(t, (ast.Tuple, ast.List)):
                     for i, te in enumerate(t.elts):
                         if isinstance(te, ast.Name) and te.id == e.id:
-                            return Poly.atom(f"({self.canon(v, d.node, depth + 1)})[{i}]")
+                            return Poly.atom(f"{_paren(self.canon(v, d.node, depth + 1))}[{i}]")       # the id `v[i]` has
             return Poly.atom(f"{e.id}@{d.kind}")
         if len(defs) == 2 and depth < self.max_depth:
             r = self._diamond(e.id, defs, at, depth)
